@@ -23,8 +23,15 @@
   `C01_deps_sensitive*`: for rules whose soundness needs a fact about the REAL consumers of the child
   (side condition `P child parent deps`), the drivers are sound provided every `_simplify_up` firing
   of the run saw a map satisfying `P` — the T3 tie checks exactly that on the traced firings.
+
+  `C01_fragment_*` (last section): for the fragment of real classes of DxModel/Fragment.lean — FromPandas,
+  Projection, Abs/Neg/Pos/Invert, Binop with a scalar, Binop of two expressions (incl. And/Or), Assign,
+  RenameFrame, Filter, Merge on columns, row-wise Concat — with the rule system `fragRules` that is DEFINED by
+  the rule functions of Dx.Cols / Dx.Pred, the hypothesis `RulesSound` is a THEOREM (derived from the C04 / C03
+  theorems about those functions), so every driver statement above holds there without hypothesis.
 -/
 import DxModel.Lemmas.Drivers
+import DxModel.Lemmas.FragSound
 namespace Dx
 
 variable {V U : Type}
@@ -480,5 +487,210 @@ theorem C01_head_of_sorted_counterexample :
   revert this
   show ¬ (denote (Congruence.ofEq C01Ex.partSem).toSem _ = denote (Congruence.ofEq C01Ex.partSem).toSem _)
   decide +kernel
+
+/-! ## The fragment of real classes: `RulesSound` discharged
+
+  Model: DxModel/Fragment.lean.  `fragP I` is the partial denotation of the fragment over abstract columns `γ`
+  and ANY interpretation `I` of the column-level operations (what pandas does to the rows) that satisfies
+  `MaskLaws` (`&` / `|` act row by row, a mask is determined by its truth values); an ill-formed expression —
+  a missing or duplicated label, a Binop of frames with different labels (open finding D39), a Merge whose key
+  collides with a non-key column of the other side (open finding D34) or whose result labels collide — denotes
+  nothing, and the statements say nothing about it.  `fragRules` calls `Cols.ioAbsorb / plain / binop / assign /
+  rename / filterRule / merge / concat / projDown` (with `detProj` over the dependents recorded in the map) and
+  `Pred.rewriteFilters`, and re-assembles the expression as the real `_simplify_up` / `_simplify_down` do.
+
+  Soundness is for an ARBITRARY dependents map (`RulesSound`, not `RulesSoundUnder`): the union taken by
+  `determine_column_projection` always contains the firing parent's own columns, so a stale, incomplete or
+  polluted map only makes a rule keep more columns. -/
+
+section Fragment
+open Dx.Frag Dx.Cols
+variable {γ ι : Type}
+
+/-- **Every rule firing of the fragment replaces an expression by one that is defined whenever the replaced one
+    is, with the same value** — for every dependents map.  Derived from `C04_plain_wf/_values`, `C04_filter_*`,
+    `C04_io_labels/_values`, `C04_assign_wf/_values`, `C04_rename_wf/_values`, `C04_binop_*`, `C04_merge_wf`,
+    `C04_merge_labels_partial`, `C04_concat_wf/_labels/_values`, `C04_projdown_*` and `C03_or_factoring`
+    (Lemmas/FragRules, FragAssign, FragConcat, FragMerge, FragPred). -/
+theorem C01_fragment_rules_sound (I : Interp γ ι) (hI : MaskLaws I) : RulesSound (fragP I).toSem fragRules where
+  down_ok := fun _ _ h v hv => ⟨v, fragDown_sound I h v hv, rfl⟩
+  up_ok := fun _ _ _ _ _ h v hv => ⟨v, fragUp_sound I hI h v hv, rfl⟩
+  tuneDown_ok := by intro e o h; cases h
+  tuneUp_ok := by intro c p o h; cases h
+  lower_ok := by intro e o h; cases h
+  fuse_ok := fun e => Ref.refl _ e
+
+/-- `Expr.simplify_once(dependents, simplified)` on the fragment: ANY dependents map, any sound cache -/
+theorem C01_fragment_simplifyOnce_sound (I : Interp γ ι) (hI : MaskLaws I) (fuel : Nat) (e : Expr) (s : SState)
+    (hc : CacheSound (fragP I).toSem s.cache) (v : FVal γ) (h : denoteP (fragP I) e = some v) :
+    denoteP (fragP I) (simplifyOnce fragRules fuel e s).1 = some v := by
+  obtain ⟨v', hv', he⟩ := (simplifyOnce_sound (fragP I).toSem fragRules _ (C01_fragment_rules_sound I hI) fuel e s
+    (TraceGood.trivial _) hc).1 v h
+  have : v' = v := he
+  rw [← this]; exact hv'
+
+/-- `Expr.simplify()` on the fragment, whatever its outcome -/
+theorem C01_fragment_simplify_sound (I : Interp γ ι) (hI : MaskLaws I) (fuel : Nat) (e : Expr) (v : FVal γ)
+    (h : denoteP (fragP I) e = some v) : denoteP (fragP I) (simplify fragRules fuel e).expr = some v := by
+  obtain ⟨v', hv', he⟩ := (C01_no_new_failure_drivers (fragP I) fragRules (C01_fragment_rules_sound I hI) fuel e v h).1
+  have : v' = v := he
+  rw [← this]; exact hv'
+
+/-- **No hypothesis on the rules**: for every expression of the fragment, every fuel, with or without the final
+    fusion stage, `optimize` returns an expression that denotes the same frame. -/
+theorem C01_fragment_optimize_sound (I : Interp γ ι) (hI : MaskLaws I) (fuel : Nat) (fuse : Bool) (e : Expr) (v : FVal γ)
+    (h : denoteP (fragP I) e = some v) : denoteP (fragP I) (optimize fragRules fuel fuse e).expr = some v := by
+  obtain ⟨v', hv', he⟩ := C01_no_new_failure (fragP I) fragRules (C01_fragment_rules_sound I hI) fuel _ e v h
+  have : v' = v := he
+  rw [← this]; exact hv'
+
+/-- … and the plan of every stage of `optimize_until` is defined, with the same value, when the query is -/
+theorem C01_fragment_no_new_failure (I : Interp γ ι) (hI : MaskLaws I) (fuel : Nat) (stage : Stage) (e : Expr) (v : FVal γ)
+    (h : denoteP (fragP I) e = some v) :
+    ∃ v', denoteP (fragP I) (optimizeUntil fragRules fuel stage e).expr = some v' ∧ v' = v :=
+  C01_no_new_failure (fragP I) fragRules (C01_fragment_rules_sound I hI) fuel stage e v h
+
+/-- … also inside any larger query -/
+theorem C01_fragment_optimize_in_context (I : Interp γ ι) (hI : MaskLaws I) (fuel : Nat) (stage : Stage) (e : Expr)
+    (c l : Nat) (pre post : List Expr) (v : FVal γ) (h : denoteP (fragP I) (.node c l (pre ++ e :: post)) = some v) :
+    denoteP (fragP I) (.node c l (pre ++ (optimizeUntil fragRules fuel stage e).expr :: post)) = some v := by
+  have hF : ∀ pre' : List Expr, Forall2 (Ref (fragP I).toSem)
+      (pre' ++ (optimizeUntil fragRules fuel stage e).expr :: post) (pre' ++ e :: post) := by
+    intro pre'
+    induction pre' with
+    | nil => exact .cons (C01_optimizeUntil_refines _ _ (C01_fragment_rules_sound I hI) fuel stage e) (forall2_refl _ post)
+    | cons a t ih => exact .cons (Ref.refl _ a) ih
+  obtain ⟨v', hv', he⟩ := Ref.rebuild (fragP I).toSem c l (hF pre) v h
+  have : v' = v := he
+  rw [← this]; exact hv'
+
+/-- the side conditions are decidable on the expression: a query denotes something iff its labels are defined
+    (`schemaOf` = the real `columns` / `ndim`, tied by the family `fragment`) -/
+def fragWF (e : Expr) : Bool := (schemaOf e).isSome
+
+theorem C01_fragment_defined_iff (I : Interp γ ι) (e : Expr) : (denoteP (fragP I) e).isSome = fragWF e :=
+  den_isSome I e
+
+/-- … so for every well-formed query of the fragment the optimized plan computes what the query computes -/
+theorem C01_fragment_optimize_wf (I : Interp γ ι) (hI : MaskLaws I) (fuel : Nat) (fuse : Bool) (e : Expr)
+    (hwf : fragWF e = true) :
+    ∃ v, denoteP (fragP I) e = some v ∧ denoteP (fragP I) (optimize fragRules fuel fuse e).expr = some v := by
+  have hd : (denoteP (fragP I) e).isSome = true := by rw [C01_fragment_defined_iff]; exact hwf
+  cases hv : denoteP (fragP I) e with
+  | none => rw [hv] at hd; cases hd
+  | some v => exact ⟨v, rfl, C01_fragment_optimize_sound I hI fuel fuse e v hv⟩
+
+/-- the optimizer keeps the declared labels and dimension of a well-formed query of the fragment -/
+theorem C01_fragment_schema_preserved (fuel : Nat) (fuse : Bool) (e : Expr) (s : Schema) (h : schemaOf e = some s) :
+    schemaOf (optimize fragRules fuel fuse e).expr = some s := by
+  have hwf : fragWF e = true := by unfold fragWF; rw [h]; rfl
+  obtain ⟨v, hv, hv'⟩ := C01_fragment_optimize_wf (listI (fun _ _ => none)) (listI_laws _) fuel fuse e hwf
+  have h1 := den_schema hv
+  have h2 := den_schema hv'
+  rw [h] at h1
+  rw [h2, ← Option.some.inj h1]
+
+/-! ### non-vacuity: the model's `optimize` on concrete queries of the fragment -/
+namespace C01Frag
+
+def L : Expr := mk (.src ⟨0, ["a", "b", "c"], none⟩) []
+def R : Expr := mk (.src ⟨1, ["b", "k", "d"], none⟩) []
+/-- `FromPandas(columns=cs)` -/
+def Lc (cs : List Name) : Expr := mk (.src ⟨0, ["a", "b", "c"], some cs⟩) []
+def Rc (cs : List Name) : Expr := mk (.src ⟨1, ["b", "k", "d"], some cs⟩) []
+def addk (k : Nat) (x : Expr) : Expr := mk (.bink 0 k) [x]
+def gtk (k : Nat) (x : Expr) : Expr := mk (.bink 1 k) [x]
+def mOn : MergeP := ⟨["b"], ["b"], "_x", "_y"⟩
+
+/-- source data: two tables of four rows -/
+def tabs : Nat → Name → Option (List Int)
+  | 0, "a" => some [1, 2, 3, 4]
+  | 0, "b" => some [3, 1, 2, 5]
+  | 0, "c" => some [0, 1, 0, 1]
+  | 1, "b" => some [1, 2, 3, 9]
+  | 1, "k" => some [7, 8, 9, 6]
+  | 1, "d" => some [10, 20, 30, 40]
+  | _, _ => none
+
+/-- labels and columns of what a query computes under the list interpretation -/
+def cells (e : Expr) : Option (List Name × List (Option (List Int))) :=
+  (denoteP (fragP (listI tabs)) e).map (fun v => (v.fr.cols, v.fr.cols.map v.fr.val))
+
+/-- `x = L.rename(columns={'c': 'C'}).merge(R, on='b')`; `x.assign(z = x.a + 1)[['z', 'd']]`: the merge is shared by the
+    Assign and by its value expression -/
+def x (l r : Expr) : Expr := mk (.merge 0 mOn) [mk (.rename [("c", "C")]) [l], r]
+def q1 : Expr := proj (.many ["z", "d"]) (mk (.assign ["z"]) [x L R, addk 1 (proj (.one "a") (x L R))])
+/-- the projection went through Assign, Merge and RenameFrame down into both sources -/
+def q1' : Expr := proj (.many ["z", "d"]) (mk (.assign ["z"])
+  [proj (.many ["d"]) (x (Lc ["a", "b"]) (Rc ["b", "d"])), addk 1 (proj (.one "a") (x (Lc ["a", "b"]) (Rc ["b", "d"])))])
+
+set_option maxRecDepth 100000 in
+example : (optimize fragRules 12 true q1).expr = q1' ∧ (optimize fragRules 12 true q1).st = .ok := by decide +kernel
+example : q1' ≠ q1 := by decide +kernel
+example : cells q1 = some (["z", "d"], [some [2, 3, 4], some [30, 10, 20]]) := by decide +kernel
+/-- by the theorem the rewritten plan computes the same; here it is, computed -/
+example : cells q1' = some (["z", "d"], [some [2, 3, 4], some [30, 10, 20]]) := by decide +kernel
+example : denoteP (fragP (listI tabs)) (optimize fragRules 12 true q1).expr = denoteP (fragP (listI tabs)) q1 := by
+  cases h : denoteP (fragP (listI tabs)) q1 with
+  | none => exact absurd (by rw [cells, h]; rfl : cells q1 = none) (by decide +kernel)
+  | some v => exact C01_fragment_optimize_sound _ (listI_laws _) 12 true q1 v h
+
+/-- a shared sub-expression with two consumers: `y = L.assign(z = L.b + 1)`, `y[['a']] + y[['a']].abs()` -/
+def y : Expr := mk (.assign ["z"]) [L, addk 1 (proj (.one "b") L)]
+def q2 : Expr := mk (.bin 2) [proj (.many ["a"]) y, mk (.elem 0) [proj (.many ["a"]) y]]
+def q2' : Expr := mk (.bin 2) [Lc ["a"], mk (.elem 0) [Lc ["a"]]]
+
+set_option maxRecDepth 100000 in
+example : (optimize fragRules 12 true q2).expr = q2' ∧ q2' ≠ q2 := by decide +kernel
+example : fragWF q2 = true ∧ cells q2 = some (["a"], [some [2, 4, 6, 8]]) ∧ cells q2' = cells q2 := by decide +kernel
+/-- one `simplify_once` with a stale, polluted dependents map and a non-empty cache: still the same frame -/
+example (s : SState) (hc : CacheSound (fragP (listI tabs)).toSem s.cache) :
+    (denoteP (fragP (listI tabs)) (simplifyOnce fragRules 9 q2 s).1).isSome = true := by
+  cases h : denoteP (fragP (listI tabs)) q2 with
+  | none => exact absurd (by rw [cells, h]; rfl : cells q2 = none) (by decide +kernel)
+  | some v => rw [C01_fragment_simplifyOnce_sound _ (listI_laws _) 9 q2 s hc v h]; rfl
+
+/-- a filter with an OR of ANDs: `L[((L.a > 2) & (L.b > 1)) | ((L.a > 2) & (L.c > 0))][['b']]` — `rewrite_filters`
+    factors `L.a > 2` out, the projection goes below the filter -/
+def p3 : Expr := mk (.bin 1) [mk (.bin 0) [gtk 2 (proj (.one "a") L), gtk 1 (proj (.one "b") L)],
+  mk (.bin 0) [gtk 2 (proj (.one "a") L), gtk 0 (proj (.one "c") L)]]
+def q3 : Expr := proj (.many ["b"]) (mk .filter [L, p3])
+def q3' : Expr := mk .filter [proj (.many ["b"]) L,
+  mk (.bin 0) [gtk 2 (proj (.one "a") L), mk (.bin 1) [gtk 1 (proj (.one "b") L), gtk 0 (proj (.one "c") L)]]]
+
+set_option maxRecDepth 100000 in
+example : (optimize fragRules 12 true q3).expr = q3' := by decide +kernel
+example : cells q3 = some (["b"], [some [2, 5]]) ∧ cells q3' = cells q3 := by decide +kernel
+
+/-- an ill-formed query denotes nothing: outside the hypothesis of the theorems -/
+example : fragWF (proj (.many ["zz"]) L) = false := by decide +kernel
+
+end C01Frag
+
+/-- **Side condition of Merge (open finding D34) — counterexample.**  `Lb.merge(Rb, left_on='b', right_on='k2')[['b_x']]`
+    with `Lb = {b, v}`, `Rb = {k2, b}`: the left key `b` collides with the non-key column `b` of the right side, which
+    `mergeOK` (part of definedness) excludes.  pandas produces the label `b_x`; the rule fires on the model exactly as
+    on the code, and the pruned merge no longer produces `b_x`. -/
+theorem C01_fragment_merge_collision_counterexample :
+    let m : MergeP := ⟨["b"], ["k2"], "_x", "_y"⟩
+    let Lb : Expr := mk (.src ⟨0, ["b", "v"], none⟩) []
+    let Rb : Expr := mk (.src ⟨1, ["k2", "b"], none⟩) []
+    let q : Expr := proj (.many ["b_x"]) (mk (.merge 0 m) [Lb, Rb])
+    fragWF q = false ∧ mergeOK m ["b", "v"] ["k2", "b"] = false ∧
+    "b_x" ∈ mergeLabels m ["b", "v"] ["k2", "b"] ∧
+    fragUp (mk (.merge 0 m) [Lb, Rb]) q (collectDependents q) =
+      some (proj (.many ["b_x"]) (mk (.merge 0 m) [proj (.many ["b"]) Lb, proj (.many ["k2"]) Rb])) ∧
+    "b_x" ∉ mergeLabels m ["b"] ["k2"] := by decide +kernel
+
+/-- **Side condition of Binop (open finding D39) — counterexample.**  For `(L[['a','b']] + L[['b','c']])[['a']]` the rule
+    function that `Binop._simplify_up` is puts the projection `['a']` on BOTH operands; the right operand has no
+    column `a`: the projection is ill-formed.  A Binop of frames with different labels denotes nothing in `fragP`. -/
+theorem C01_fragment_binop_labels_counterexample :
+    binop ["a", "b", "c"] (some ["a", "b"]) (some ["b", "c"]) (.list ["a"]) [] =
+      some { childs := [some (.many ["a"]), some (.many ["a"])], keep := true } ∧
+    schOp (.proj (.many ["a"])) [⟨["b", "c"], false⟩] = none ∧
+    schOp (.bin 2) [⟨["a", "b"], false⟩, ⟨["b", "c"], false⟩] = none := by decide +kernel
+
+end Fragment
 
 end Dx
